@@ -34,6 +34,7 @@ mod c19 {
         vk_assert!(veq(u_on.value, u_off.value), "C19.assign_forms_same_value");
         vk_assert!(veq((-q_on(a, 1, 0)).abs().value, (-q_off(a, 1, 0)).abs().value), "C19.neg_abs_same_value");
         vk_assert!(q_on(a, 1, 0).partial_cmp(&q_on(d, 1, 0)) == q_off(a, 1, 0).partial_cmp(&q_off(d, 1, 0)), "C19.ordering_same");
+        vk_assert!((q_on(a, 1, 0) == q_on(d, 1, 0)) == (q_off(a, 1, 0) == q_off(d, 1, 0)) && (q_on(a, 1, 0) != q_on(a, 1, 0)) == (q_off(a, 1, 0) != q_off(a, 1, 0)), "C19.equality_same");
         vk_assert!(veq(Quantity::from(Time(t)).value, off::Quantity::from(off::Time(t)).value), "C19.time_to_quantity_same");
         vk_assert!(Time::try_from(q_on(a, 0, 1)).map(|x| x.0) == off::Time::try_from(q_off(a, 0, 1)).map(|x| x.0), "C19.quantity_to_time_same");
         vk_end!();
@@ -144,12 +145,12 @@ mod c19 {
         let (s1, s2) = ([sym_f32(), sym_f32(), sym_f32()], [sym_f32(), sym_f32(), sym_f32()]);
         let (ta, tb): (i64, i64) = (kani::any(), kani::any());
         let r = sym_f32();
-        let mut g_on = GearTrain::<E>::with_ratio_raw(r);
+        let mut g_on = GearTrain::<E>::with_ratio(q_on(r, 0, 0));
         g_on.get_terminal_1().borrow_mut().set(Datum::new(Time(ta), State::new_raw(s1[0], s1[1], s1[2]))).unwrap();
         g_on.get_terminal_2().borrow_mut().set(Datum::new(Time(tb), State::new_raw(s2[0], s2[1], s2[2]))).unwrap();
         let _ = g_on.update();
         let a: Option<Datum<State>> = g_on.get_terminal_1().borrow().get_last_request();
-        let mut g_off = off::devices::GearTrain::<E>::with_ratio_raw(r);
+        let mut g_off = off::devices::GearTrain::<E>::with_ratio(q_off(r, 0, 0));
         { use off::Settable; use off::Updatable;
           g_off.get_terminal_1().borrow_mut().set(off::Datum::new(off::Time(ta), off::State::new_raw(s1[0], s1[1], s1[2]))).unwrap();
           g_off.get_terminal_2().borrow_mut().set(off::Datum::new(off::Time(tb), off::State::new_raw(s2[0], s2[1], s2[2]))).unwrap();
@@ -171,6 +172,8 @@ mod c19 {
         let mut st = off::State::new_raw(0.0, 0.0, 0.0);
         vk_assert!(st.set_constant_position(x).is_ok() && st.set_constant_velocity(x).is_ok() && st.set_constant_acceleration(x).is_ok(), "C19.unchecked.setters_never_reject");
         let _ = off::State::new(x, y, x);
+        let _ = off::devices::GearTrain::<E>::with_ratio(x);        // a ratio of any unit is accepted when checking is off
+        vk_assert!((x == y) == (a == b), "C19.unchecked.equality_is_f32_equality");
         let t: i64 = kani::any();
         let _ = (x + off::Time(t), off::Time(t) - y, x - off::DimensionlessInteger(t));
         vk_end!();
